@@ -166,5 +166,27 @@ SPECS = [
 ]
 
 
+# ---- remaining non-trivial functions of the anchored files, each assigned to the one property whose mechanism it belongs to
+# (tables/fn_extra.json, frozen): they get a row in that property's F-core table
+def _load_extra():
+    import json
+    import os
+    p_ = os.path.join(os.path.dirname(os.path.dirname(os.path.abspath(__file__))), 'tables', 'fn_extra.json')
+    if not os.path.exists(p_):
+        return
+    extra = json.load(open(p_))
+    by_id = {s_['id']: s_ for s_ in SPECS}
+    for prop, fns in extra.items():
+        sp = by_id.get('fn_core_%s' % prop.lower())
+        if sp is None:
+            continue
+        for f_ in fns:
+            if f_ not in sp['fns']:
+                sp['fns'].append(f_)
+
+
+_load_extra()
+
+
 def specs_for(prop):
     return [s for s in SPECS if s['prop'] == prop]
